@@ -6,6 +6,7 @@ import impl as implmod
 import props.c03 as c03
 
 PROP = "C12"
+CONSTS = ['mem']          # constant tables of the models this property depends on
 RULE = c03.RULE + "; the invariant is evaluated on the real objects after EVERY operation"
 ASSUMPTIONS = c03.ASSUMPTIONS
 
